@@ -7,7 +7,8 @@ import storeprop  # noqa: E402
 
 ID = "C04"
 THEOREMS = ["c04_delete_is_delete_all", "c04_no_dangling", "c04_victims_unreachable", "c04_attrs_kept",
-            "c04_links_kept_in_order", "c04_untouched_node", "c04_reach_kept", "c04_nothing_new"]
+            "c04_links_kept_in_order", "c04_untouched_node", "c04_reach_kept", "c04_nothing_new",
+            "c04_key_resolves_to_member"]
 # scripted beginnings that build the link topologies deletion has to cope with: several sources of
 # ONE subtree linked from the same entity; an array referenced from groups and tags of its block
 PRELUDES = [
